@@ -2,6 +2,7 @@ package drv
 
 import (
 	"fmt"
+	"io"
 	"io/fs"
 
 	"github.com/avfs/avfs"
@@ -192,7 +193,7 @@ func (s *Session) Project(names []string) (snap Snapshot) {
 	snap.Hs = []HandleView{}
 
 	for _, f := range s.Hs {
-		hv := HandleView{K: "none"}
+		hv := HandleView{K: "none", Off: -1}
 
 		func() {
 			defer func() {
@@ -204,7 +205,13 @@ func (s *Session) Project(names []string) (snap Snapshot) {
 			fi, err := f.Stat()
 			if err == nil {
 				in := s.infoOf(fi)
-				hv = HandleView{Open: true, K: in.K, Sz: in.Sz, Nl: in.Nl, M: in.M}
+				hv = HandleView{Open: true, K: in.K, Sz: in.Sz, Nl: in.Nl, M: in.M, Off: -1}
+
+				if in.K != "dir" {
+					if off, err := f.Seek(0, io.SeekCurrent); err == nil {
+						hv.Off = int(off)
+					}
+				}
 			}
 		}()
 
